@@ -1,4 +1,5 @@
 #include <symengine/visitor.h>
+#include <symengine/test_visitors.h>
 #include <symengine/basic.h>
 
 namespace SymEngine
@@ -98,7 +99,11 @@ public:
         exp_ = x.get_exp();
         apply(*x.get_base());
 
-        if (eq(**imag_, *zero)) {
+        // a real base raised to a non-integer rational power is real only
+        // when the base is nonnegative: (-8)**(1/3) is not
+        if (eq(**imag_, *zero)
+            and (not is_a<Rational>(*exp_)
+                 or is_true(is_nonnegative(**real_)))) {
             *real_ = x.rcp_from_this();
             *imag_ = zero;
             return;
